@@ -5,6 +5,7 @@
   connection loss, over any number of reconnections" is the quantifier `∀ es`.
 -/
 import Hpfeeds.Lemmas.AioClient
+import Hpfeeds.Lemmas.BlkSession
 namespace Hpfeeds.C11
 open Hpfeeds Extracted
 
@@ -63,4 +64,56 @@ example : (run exCfg [.sub [99], .refuse, .advance 1000, .accept, .data (exInfo.
   decide +kernel
 
 end Aio
+/-! ## blocking thread session (hpfeeds/blocking: ClientSession + Reactor + Protocol) -/
+namespace Blk
+open Hpfeeds.BlkSession
+
+/-- On every connection, after ANY event sequence (any interleaving of the reactor's rounds, the network
+    and the three steps of every application thread's subscribe / unsubscribe / publish, over any number
+    of reconnections): as long as no OP_INFO of THIS connection has been dispatched, nothing has been put
+    into its outbox and nothing has reached its socket. -/
+theorem nothing_before_info (cfg : Cfg) (es : List Ev) (h : (run cfg es).1.nonce = none) :
+    (run cfg es).1.enq = [] ∧ (run cfg es).1.wire = [] ∧ (run cfg es).1.buffer = [] := by
+  have hq := (run_inv cfg es).a.quiet h
+  have hw := (run_inv cfg es).w.bytes
+  rw [hq] at hw
+  simp only [List.flatten_nil, List.append_eq_nil_iff] at hw
+  exact ⟨hq, hw.1.1, hw.1.2⟩
+
+/-- … and once one has, the first frame put into the outbox — hence, by C20, the first bytes on the wire —
+    is the OP_AUTH computed from the nonce of an OP_INFO frame that is among the frames decoded from the
+    bytes received on THAT connection; application frames come after it. -/
+theorem first_frame_is_auth (cfg : Cfg) (es : List Ev) (r : Bytes) (h : (run cfg es).1.nonce = some r) :
+    (∃ rest, (run cfg es).1.enq = authFrame cfg r :: rest ∧
+      (run cfg es).1.wire <+: authFrame cfg r ++ rest.flatten) ∧
+    (∃ f ∈ (run cfg es).1.processed, ∃ n, read f = some (.ok (.info n r))) ∧
+    (run cfg es).1.inbound = (run cfg es).1.processed.flatMap enc ++ (run cfg es).1.ubuf := by
+  obtain ⟨rest, hrest⟩ := (run_inv cfg es).a.first r h
+  refine ⟨⟨rest, hrest, ?_⟩, (run_inv cfg es).a.seen r h, (run_inv cfg es).b.bytes⟩
+  have hw := (run_inv cfg es).w.bytes
+  rw [hrest] at hw
+  exact ⟨(run cfg es).1.buffer ++ (run cfg es).1.items.flatten, by rw [← List.append_assoc, hw]; simp⟩
+
+/-- an application write is queued only on a connection that is ready, i.e. whose OP_AUTH is already queued -/
+theorem ready_means_auth_queued (cfg : Cfg) (es : List Ev) (h : (run cfg es).1.ready = true) :
+    ∃ r rest, (run cfg es).1.nonce = some r ∧ (run cfg es).1.enq = authFrame cfg r :: rest ∧
+      (run cfg es).1.live = true := by
+  obtain ⟨hs, hl⟩ := (run_inv cfg es).a.rdy h
+  obtain ⟨r, hr⟩ := Option.isSome_iff_exists.mp hs
+  obtain ⟨rest, hrest⟩ := (run_inv cfg es).a.first r hr
+  exact ⟨r, rest, hr, hrest, hl⟩
+
+/-! non-vacuity (kernel-evaluated, hash := id).  A subscribe made before OP_INFO — thread 1 has picked the
+    outbox and tests when_connected before the handshake — is not queued; the one that tests it afterwards
+    is, behind OP_AUTH and the resubscription.  Thread 3 picked the outbox of connection 1, the connection
+    is lost and re-made, and its frame never reaches connection 2. -/
+def exCfg : Cfg := { ident := [109], secret := [115], H := id }
+def exInfo (a : UInt8) : Bytes := [0,0,0,12,1,2,104,112,a,8,7,6]
+example : (run exCfg [.connect, .wBegin 1 (.sub [99]), .wCheck 1, .wBegin 2 (.sub [100]), .inb ((exInfo 9).take 7),
+    .sel .again, .inb ((exInfo 9).drop 7), .sel .again, .wCheck 2]).1.enq =
+    [authFrame exCfg [9,8,7,6], subFrame exCfg [99], subFrame exCfg [100], subFrame exCfg [100]] := by decide +kernel
+example : (run exCfg [.connect, .inb (exInfo 9), .sel .again, .wBegin 3 (.pub [99] [1]), .eof, .sel .again, .connect,
+    .inb (exInfo 5), .sel .again, .wCheck 3, .wWake 3]).1.enq = [authFrame exCfg [5,8,7,6]] := by decide +kernel
+
+end Blk
 end Hpfeeds.C11
